@@ -211,10 +211,42 @@ def run(chk):
                           found=False)
         if idx % 5000 == 1:
             chk.sample({"program": vlib.unhx(impl_lines[idx].split("\t")[4]), "impl": impl, "model": mres[idx]})
+    define_stream(chk)
     chk.count("width", len(meta), **dist)
     chk.cov["traces_validated_against_impl"] = len(meta)
     chk.cov["disagreements_checked"] = ndis
     chk.cov["exhaustive_widths"] = "0..%d" % (8 if chk.tier == "quick" else 13)
+
+
+def define_stream(chk):
+    """the same range rule for values that arrive from the command line: `-dX=<literal>` through the REAL binary; a negated
+    literal is the unsized negation, a positive hex/binary literal carries its digit-count size (C18_define_*)"""
+    import os, subprocess, tempfile, shutil
+    exe = vlib.customasm_build(("debug",))["debug"]
+    tmp = tempfile.mkdtemp(prefix="c04def", dir=vlib.CACHE)
+    n_run = 0
+    try:
+        for n in (4, 8, 9, 16):
+            with open(os.path.join(tmp, "d%d.asm" % n), "w") as f:
+                f.write("X = 0\n#d%d X\n" % n)
+            vals = sorted(set(b + dv for b in boundaries("d", n) + [0] for dv in (-2, -1, 0, 1)))
+            for v in vals:
+                for how in ("dec", "hex", "bin"):
+                    text, sz = spell(v, how)
+                    pr = subprocess.run([exe, "d%d.asm" % n, "-q", "-p", "-f", "binstr", "-dX=" + text], cwd=tmp, capture_output=True, text=True, timeout=60)
+                    n_run += 1
+                    ok = (sz <= n) if sz is not None else in_range("d", n, v)
+                    want = low_bits(n, v) if ok else None
+                    got = pr.stdout.strip() if pr.returncode == 0 else None
+                    chk.nontriv(("define", n, v))
+                    if got != want:
+                        chk.violation("#d%d of a constant defined on the command line as %s: the binary %s, the range rule says %s" % (
+                            n, text, "emits " + got if got is not None else "rejects it", "bits " + want if want is not None else "reject"),
+                            {"kind": "define-range", "width": n, "value": v, "spelling": how, "args": ["-dX=" + text], "program": "X = 0\n#d%d X\n" % n,
+                             "exit": pr.returncode, "stdout": pr.stdout[-300:], "stderr": pr.stderr[-300:]})
+    finally:
+        shutil.rmtree(tmp, ignore_errors=True)
+    chk.count("define_range_runs", n_run)
 
 
 def replay(chk, rep):
